@@ -61,3 +61,66 @@ def faults(enc, marks, proto, rnd, max_flips=None):
                 m = list(enc)
                 m[pos] = v
                 yield ("overwrite-type", [pos, v], m)
+
+
+def pb_len_marks(b, base=0, depth=0):
+    """Length prefixes of a VALID protobuf encoding: [{pos, w, kind:'len', payload: (start, length)}] (mechanical walk of the
+    records; payloads that parse as records are descended)."""
+    marks, i, n = [], 0, len(b)
+    try:
+        while i < n:
+            k, j, sh = 0, i, 0
+            while True:
+                x = b[j]; j += 1
+                k |= (x & 0x7f) << sh; sh += 7
+                if x < 0x80:
+                    break
+            wt = k & 7
+            if wt == 0:
+                while b[j] >= 0x80:
+                    j += 1
+                j += 1
+            elif wt == 1:
+                j += 8
+            elif wt == 5:
+                j += 4
+            elif wt == 2:
+                l, s0, sh = 0, j, 0
+                while True:
+                    x = b[j]; j += 1
+                    l |= (x & 0x7f) << sh; sh += 7
+                    if x < 0x80:
+                        break
+                marks.append({"pos": base + s0, "w": j - s0, "kind": "len", "payload": (base + j, l)})
+                if depth < 4 and l >= 2:
+                    sub = pb_len_marks(b[j:j + l], base + j, depth + 1)
+                    if sub is not None:
+                        marks += sub
+                j += l
+            elif wt in (3, 4):
+                pass      # group delimiters carry no payload of their own
+            else:
+                return None
+            if j > n:
+                return None
+            i = j
+    except IndexError:
+        return None
+    return marks
+
+
+def pb_payload_faults(enc):
+    """Fault action CorruptPayload: the first / last byte of every non-empty length-delimited payload set to 0xFF, and the
+    whole payload set to 0xC0 0x80.. (an over-long UTF-8 form): what makes a `string` field fail AFTER its bytes were copied."""
+    for mk in pb_len_marks(enc) or []:
+        st, l = mk["payload"]
+        if l == 0:
+            continue
+        for name, idx in (("first", st), ("last", st + l - 1)):
+            m = list(enc)
+            m[idx] = 0xff
+            yield ("corrupt-payload", [st, l, name], m)
+        m = list(enc)
+        for q in range(st, st + l):
+            m[q] = 0xc0 if (q - st) % 2 == 0 else 0x80
+        yield ("corrupt-payload", [st, l, "overlong-utf8"], m)
